@@ -41,6 +41,41 @@ theorem matcher_is_s3_filter (r : Rule) (key : Bytes) (size : Int) (tags : Tags)
     (h : filterWellFormed r = true) : ruleMatches r key size tags = selects r key size tags :=
   ruleMatches_eq_selects r key size tags h
 
+/-- **tag_filter_requires_presence.** A rule with a tag predicate `(k, v)` — for EVERY `v`, the empty
+value included — never selects an object that does not carry the key `k` at all (in particular an
+untagged object): an absent tag is not a tag with the empty value. -/
+theorem tag_filter_requires_presence (r : Rule) (f : Filter) (key : Bytes) (size : Int) (tags : Tags)
+    (t : Bytes × Bytes) (hf : r.filter = some f) (ht : t ∈ filterTags f) (habsent : tagLookup tags t.1 = none) :
+    ruleMatches r key size tags = false := by
+  unfold ruleMatches
+  split
+  · rfl
+  · simp only [hf]
+    have hall : (filterTags f).all (hasTag tags) = false := by
+      rw [List.all_eq_false]
+      exact ⟨t, ht, by simp [hasTag, habsent]⟩
+    simp [hall]
+
+/-- … and it selects an object that carries `k` only with exactly the value `v` -/
+theorem tag_filter_requires_value (r : Rule) (f : Filter) (key : Bytes) (size : Int) (tags : Tags)
+    (t : Bytes × Bytes) (hf : r.filter = some f) (ht : t ∈ filterTags f)
+    (hm : ruleMatches r key size tags = true) : tagLookup tags t.1 = some t.2 := by
+  unfold ruleMatches at hm
+  split at hm
+  · simp at hm
+  · simp only [hf, Bool.and_eq_true, List.all_eq_true] at hm
+    have := hm.2 t ht
+    simpa [hasTag] using this
+
+/-- non-vacuity: the empty-valued predicate against an untagged object, an object with the empty
+value, an object with another value -/
+example :
+    let r : Rule := { enabled := true, pfx := none,
+                      filter := some { pfx := none, tag := some ([97], []), gt := none, lt := none, and := none },
+                      expiration := none, abort := none, transitions := [], ncExpiration := none, ncTransitions := [] }
+    ruleMatches r [1] 5 [] = false ∧ ruleMatches r [1] 5 [([97], [])] = true ∧ ruleMatches r [1] 5 [([97], [120])] = false := by
+  decide
+
 /-! ## acts_only_when_due -/
 
 /-- current-version expiration -/
